@@ -147,21 +147,29 @@ Sweeps == {<<i, SweepType(i, k)>> : i \in 1..BoxN, k \in (IF Quick THEN {1} ELSE
 FinalState(T, h) == BoxResults(T, h)[Len(h)].st
 
 BoxLawsFinal(T, h, st, rs) == BoxLawsOf(T, h, rs) /\ st = rs[Len(h)].st /\ LastIndexOf(st.url, cSlash) = LastIndexOfDef(st.url, cSlash)
+                              /\ st.name = MessageNameDef(st.url)
 \* pick of a box state: <<T, history, machine state, round, ops done in this round>>
 VARIABLES kind, url, pick
 Init == kind = "init" /\ url = <<>> /\ pick = <<>>
 BoxGo(T, h, st, rnd, ops, p) ==
-  /\ BoxDefined(st, T, p)
+  /\ BoxDefined(st, T, p) = TRUE             \* (= TRUE: a value, not an action whose disjunctions TLC would enumerate one by one)
   /\ pick' = <<T, Append(h, p), BoxStep(st, T, p).st, rnd, ops>> /\ kind' = "box" /\ url' = url
+NoUrl(h) == \A i \in 1..Len(h) : h[i].a # "url"
+Round2News(T) == {SNew(T, c, pt) : c \in {BoxEmpty, Full2(BoxFacts[T])}, pt \in Parts(T)}
+\* bounds: the URL is varied in the first round only, from a clean or fully populated destination (quick: fully populated, and
+\* an empty or fully populated payload); a second operation follows only where the URL was left alone; a second round (the
+\* Any and the destination are reused) starts after the first operation of such a history and has one operation
+UrlFrom(T, h, st) == IF Quick THEN st.pc \in {BoxEmpty, Full1(BoxFacts[T])} /\ h[1].c = Full1(BoxFacts[T])
+                     ELSE h[1].c \in {BoxEmpty, Full1(BoxFacts[T])}
 BoxNext ==
   \/ (kind = "init" /\ \E T \in Reps : \E c \in Fills(BoxFacts[T]) : BoxGo(T, <<>>, BoxInit, 1, 0, SFill(c)))
   \/ (kind = "box" /\
       LET T == pick[1]  h == pick[2]  st == pick[3]  rnd == pick[4]  ops == pick[5]  last == h[Len(h)].a IN
       \/ (last = "fill" /\ \E p \in NewSteps(T) : BoxGo(T, h, st, rnd, 0, p))
-      \/ (last \in {"to", "unew"} /\ rnd < BoxRounds /\ \E p \in NewSteps(T) : BoxGo(T, h, st, rnd + 1, 0, p))
-      \/ (last = "new" /\ rnd = 1 /\ (Quick => st.pc \in {BoxEmpty, Full1(BoxFacts[T])} /\ h[1].c = Full1(BoxFacts[T]))
-                       /\ \E p \in UrlSteps(T, st) : BoxGo(T, h, st, rnd, 0, p))
-      \/ (last \in {"new", "url", "to", "unew"} /\ ops < BoxOps /\ \E p \in OpSteps(T) : BoxGo(T, h, st, rnd, ops + 1, p)))
+      \/ (last \in {"to", "unew"} /\ rnd < BoxRounds /\ ops = 1 /\ NoUrl(h) /\ \E p \in Round2News(T) : BoxGo(T, h, st, rnd + 1, 0, p))
+      \/ (last = "new" /\ rnd = 1 /\ UrlFrom(T, h, st) /\ \E p \in UrlSteps(T, st) : BoxGo(T, h, st, rnd, 0, p))
+      \/ (last \in {"new", "url", "to", "unew"} /\ ops < (IF rnd = 1 THEN BoxOps ELSE 1) /\ (IF ops = 0 THEN TRUE ELSE NoUrl(h))
+            /\ \E p \in OpSteps(T) : BoxGo(T, h, st, rnd, ops + 1, p)))
 Next ==
   \/ (kind \in {"init", "url"} /\ Len(url) < UrlLen /\ \E c \in UrlAlphabet : url' = Append(url, c) /\ kind' = "url" /\ pick' = pick)
   \/ (kind = "init" /\ \E v \in AllGo : pick' = <<v>> /\ kind' = "val" /\ url' = url)
@@ -187,6 +195,7 @@ ValLaws ==
   /\ (Normal(v) => r.ok /\ AsInterface(r.r) = v)                  \* identity on normal forms
 UrlLaws ==
   /\ LastIndexOf(url, cSlash) = LastIndexOfDef(url, cSlash) /\ LastIndexOf(url, cDot) = LastIndexOfDef(url, cDot)
+  /\ IsFullNameScan(url) = IsFullName(url) /\ MessageName(url) = MessageNameDef(url)
   /\ \A n \in Names : MessageIs(url, n) = (MessageName(url) = n)
   /\ (MessageName(url) # <<>> => MessageIs(url, MessageName(url)))
   /\ \A n \in Names : MessageIs(url \o <<cSlash>> \o n, n) /\ MessageName(url \o <<cSlash>> \o n) = n
@@ -197,7 +206,7 @@ TypeLaws ==
 BoxHistLaws == BoxLawsFinal(pick[1], pick[2], pick[3], BoxResults(pick[1], pick[2]))
 \* the table itself: names are full names in ascending order (the driver and the harness index it the same way), and every
 \* type can be made dirty
-TableLaws == \A i \in 1..BoxN : IsFullName(BoxTypes[i]) /\ (i < BoxN => StrLess(BoxTypes[i], BoxTypes[i + 1])) /\ Full1(BoxFacts[i]) # BoxEmpty
+TableLaws == \A i \in 1..BoxN : IsFullName(BoxTypes[i]) /\ IsFullNameScan(BoxTypes[i]) /\ (i < BoxN => StrLess(BoxTypes[i], BoxTypes[i + 1])) /\ Full1(BoxFacts[i]) # BoxEmpty
 Laws == CASE kind = "val" -> ValLaws [] kind = "url" -> UrlLaws [] kind = "type" -> TypeLaws
           [] kind \in {"box", "sweep"} -> BoxHistLaws [] kind = "init" -> TableLaws [] OTHER -> TRUE
 
